@@ -251,11 +251,9 @@ def run(ctx):
         raise lib.ToolError("operands could not be constructed although every constructor record was accepted")
     # vacuity guard on the outcome classes -- only meaningful once every outcome is the specified one
     classes = check_classes(spec, recs, strict=not ctx.violations)
-    quirk = spurious_none(recs)
-    if quirk:
-        lib.known_finding(ctx, "ZatBalance::zero() * k is None for every usize k > i64::MAX although the exact "
-                               "product 0 is a valid amount (conservative failure, no wrap; e.g. k=%s)"
-                          % quirk[0]["a"][1])
+    # ZatBalance(0) * (usize > i64::MAX) = None was a genuine defect of the pinned tree; it is repaired
+    # (known_findings.json: fixed) and the specification no longer tolerates it (AllowSpuriousNone = FALSE).
+    quirk = []
     if not ctx.quick() and not ctx.violations:
         # informational: do the Err kinds follow the rustdoc convention (below => Underflow, above => Overflow)?
         p = ctx.path("trace_strictkinds.ndjson")
@@ -275,13 +273,16 @@ def run(ctx):
     ctx.extra["lattice_tuples"] = summary["lattice_tuples"]
     ctx.extra["random_tuples_per_operation"] = n_random
     ctx.extra["outcome_classes"] = {op: sorted(c) for op, c in sorted(classes.items())}
-    distinct = len({(e["op"], tuple(e["a"]), tuple(e["b"])) for e in recs})
+    distinct = len({(e["op"], tuple(e["a"]), tuple(e["b"])) for e in recs if e["a"] or e["b"]})
+    ctx.extra["distinct_failure_cases"] = len({(e["op"], tuple(e["a"]), tuple(e["b"])) for e in recs
+                                               if outcome_class(e) in ("none", "err", "panic")})
     lib.mc_evidence(
         ctx,
         rule="every record = one call of a public Zatoshis/ZatBalance operation on the real code (all tuples of the "
              "specification's boundary lattice for each of the %d operations + seeded random tuples), validated by TLC "
              "against Amounts!Spec over DecInt at the real constants; distinct_nontrivial = distinct (operation, "
-             "arguments) tuples; states/transitions also count the exhaustive native-instance theorems (MC_Amounts) "
+             "arguments) tuples with at least one argument (the two nullary constants are the trivial cases); "
+             "states/transitions also count the exhaustive native-instance theorems (MC_Amounts) "
              "and the DecInt-vs-native check (MC_DecInt)" % len(spec["sigs"]),
         evaluations=len(recs), distinct_nontrivial=distinct,
         extra={"exhaustive": False},
